@@ -79,6 +79,16 @@ def build_iwe_binary():
     return os.path.join(tgt, "release", "iwe")
 
 
+def build_iwes_binary():
+    """build the real `iwes` language server from /repo into the harness' target dir (no hooks: the shipped program)"""
+    tgt = os.path.join(HARNESS, "target", "iwe-bin")
+    rc, out, dt = run(["cargo", "build", "--release", "--offline", "--quiet", "-p", "iwes", "--target-dir", tgt], 1800,
+                      cwd=REPO, env={"CARGO_NET_OFFLINE": "true"})
+    if rc != 0:
+        raise ToolError("iwes build failed:\n" + out[-4000:])
+    return os.path.join(tgt, "release", "iwes")
+
+
 TLC_JAR = "/opt/veriftools/tla/tla2tools.jar:/opt/veriftools/tla/CommunityModules-deps.jar"
 
 
